@@ -186,7 +186,7 @@ def unit_for(mmap, mutable=False):
     lp.invariant("forall(hh, implies(old(alive(hh)) and hh != None and hh != old(self.file)%s, hh.pos == old(hh.pos) and hh.closed == old(hh.closed)))"
                  % (" and hh != old(self.mm)" if mmap else ""), "other-handles-untouched")
     lp.invariant("forall(t, 0, _i1, yielded[t] == " + Vf("t") + ", trigger=yielded[t])")
-    m.ensures("len(yielded) == len(self._lines)")
+    m.ensures("len(yielded) == len(self._lines) and self.file != None")
     m.ensures("forall(t, 0, len(yielded), yielded[t] == " + Vf("t") + ", trigger=yielded[t])",
               "iteration=indexing(also-with-interleaved-accesses-moving-the-cursor)")
     return (U, C, cls) if not mutable else (U, C, cls, dict(B=B, R=R, MM=MM, M=M, H=H, Vf=Vf, P=P, rd=rd, valid=valid, own=own))
